@@ -231,6 +231,15 @@ impl<'a> Packet<'a> {
         for e in &self.additional_records {
             e.write_compressed_to(out, &mut name_refs)?;
         }
+        #[cfg(simple_dns_verif)]
+        crate::dns::verif_hooks::record_compression_table(
+            name_refs
+                .iter()
+                .map(|(suffix, position): (&&[crate::dns::name::Label], &usize)| {
+                    (suffix.iter().map(|l| l.as_bytes().to_vec()).collect(), *position)
+                })
+                .collect(),
+        );
         out.flush()?;
 
         Ok(())
